@@ -396,6 +396,19 @@ func H07Templates() {
 	vndAssert(err != nil, "unterminated-regexp-rejected")
 	_, err = NewFilter("k:\"" + string(w))
 	vndAssert(err != nil, "unterminated-quote-rejected-template")
+	// ... in every position of a value list, and a terminated one is a regexp in every position
+	for _, q := range []string{"k:(/" + string(w) + " OR d)", "k:(d OR /" + string(w) + ")", "k:(d OR e OR /" + string(w) + ")", "-k:(d OR /" + string(w) + ")",
+		"a:b k:(d OR \"e\" OR /" + string(w) + ")", "k:(d OR \"" + string(w) + ")"} {
+		_, err = NewFilter(q)
+		vndAssert(err != nil, "unterminated-regexp-rejected-in-a-value-list")
+	}
+	for _, q := range []string{"k:(/^ab*$/ OR d)", "k:(d OR /^ab*$/)", "k:(d OR \"e\" OR /^ab*$/)"} {
+		f4, err4 := NewFilter(q)
+		vndAssert(err4 == nil, "regexp-accepted-in-a-value-list")
+		if err4 == nil {
+			vndAssert(h07Match(f4, h07Result("k", "abb")) && h07Match(f4, h07Result("k", "d")) && !h07Match(f4, h07Result("k", "/^ab*$/")), "list-regexp-is-a-regexp-in-every-position")
+		}
+	}
 }
 
 // H07TwoTerms: two quoted terms in one filter each denote their own key and
